@@ -20,6 +20,9 @@ type genStats struct {
 	Dups     int
 	Closed   int
 	Holes    int
+	Bumps    int
+	Gate     int
+	GateHits int
 	Rejected int // candidate polygons the implementation's Validate refused (not used)
 	EmptyMem int
 }
@@ -196,9 +199,51 @@ func genRing(r *lib.Rng, ct geom.CoordinatesType, c coordSrc, cx, cy, lo, hi int
 	return n
 }
 
-func genPolyNode(r *lib.Rng, ct geom.CoordinatesType, c coordSrc, cx, cy int, st *genStats) *lib.Node {
+// genBumpPoly: a T-shaped shell whose stem holds a hole. Simplifying with a threshold of about the
+// stem's height removes the stem and leaves the hole outside the shell: the result fails validation
+// (the error branch of Polygon.Simplify and MultiPolygon.Simplify).
+func genBumpPoly(r *lib.Rng, ct geom.CoordinatesType, c coordSrc, cx, cy int, st *genStats) *lib.Node {
 	n := &lib.Node{Kind: lib.KPoly, CT: ct}
-	n.Kids = append(n.Kids, genRing(r, ct, c, cx, cy, 6, 9, st))
+	h := r.Range(6, 10)
+	shell := [][2]int{{0, 0}, {20, 0}, {20, 10}, {12, 10}, {12, 10 + h}, {8, 10 + h}, {8, 10}, {0, 10}}
+	hole := [][2]int{{9, 12}, {11, 12}, {11, 8 + h}, {9, 8 + h}}
+	mk := func(pts [][2]int) *lib.Node {
+		ring := &lib.Node{Kind: lib.KLine, CT: ct}
+		var vs [][4]float64
+		for _, p := range pts {
+			vs = append(vs, vtx(c, ct, cx+p[0]-10, cy+p[1]-10))
+		}
+		rot := r.Intn(len(vs))
+		vs = append(vs[rot:], vs[:rot]...)
+		if r.Bool() {
+			for i, j := 0, len(vs)-1; i < j; i, j = i+1, j-1 {
+				vs[i], vs[j] = vs[j], vs[i]
+			}
+		}
+		vs = append(vs, vs[0])
+		ring.C = clearUnused(addDups(r, vs, st), ct)
+		return ring
+	}
+	n.Kids = append(n.Kids, mk(shell), mk(hole))
+	st.Holes++
+	st.Bumps++
+	return n
+}
+
+func genPolyNode(r *lib.Rng, ct geom.CoordinatesType, c coordSrc, cx, cy int, st *genStats) *lib.Node {
+	if r.Chance(1, 5) {
+		return genBumpPoly(r, ct, c, cx, cy, st)
+	}
+	n := &lib.Node{Kind: lib.KPoly, CT: ct}
+	if r.Chance(1, 4) {
+		// deep concavities next to a fat hole: simplification tends to cut the shell into the hole
+		// (exercises the validation gate of Simplify)
+		n.Kids = append(n.Kids, genRing(r, ct, c, cx, cy, 3, 9, st), genRing(r, ct, c, cx, cy, 2, 2, st))
+		st.Holes++
+		st.Gate++
+		return n
+	}
+	n.Kids = append(n.Kids, genRing(r, ct, c, cx, cy, 3+3*r.Intn(2), 9, st))
 	if r.Chance(1, 2) {
 		n.Kids = append(n.Kids, genRing(r, ct, c, cx, cy, 1, 2, st))
 		st.Holes++
